@@ -20,7 +20,7 @@ class WalkSuite(Suite):
             "walked from the root or a sub-target; the model is fed the independent lstat snapshot; non-trivial = >= 3 entries, distinct")
 
     def gen(self, rng, tier):
-        n = {"quick": 300, "thorough": 6000, "search": 150}[tier]
+        n = {"quick": 800, "thorough": 6000, "search": 150}[tier]
         ops = []
         for _ in range(n):
             tree = gen.disk_tree(rng, rng.choice([5, 15, 40]), 5, deep=rng.random() < 0.15)
